@@ -257,6 +257,47 @@ class Engine:
             return self.wrap_sym(st, op, a, b, t)
         return r
 
+    def convert_split(self, st, v, t, from_t=None):
+        """integral conversion that may split the state on the sign of the source value:
+        signed -> same-width unsigned is v for v >= 0 and v + 2^N for v < 0 (both linear)"""
+        if not isinstance(v, Lin):
+            return [(v, st)]
+        bt, ft = btype(t), btype(from_t)
+        if bt in UBITS and ft in SBITS and UBITS[bt] >= SBITS[ft] and UBITS[bt] > 1:
+            if entails(st.cons, ge(v, 0)):
+                return [(v, st)]
+            if entails(st.cons, le(v, -1)):
+                return [(v + (1 << UBITS[bt]), st)]
+            a, b = st.copy(), st.copy()
+            a.assume(ge(v, 0))
+            a.trail.append('%r >= 0' % v)
+            b.assume(le(v, -1))
+            b.trail.append('%r < 0' % v)
+            out = []
+            if a.ok():
+                out.append((v, a))
+            if b.ok():
+                out.append((v + (1 << UBITS[bt]), b))
+            return out
+        if bt in SBITS and ft in UBITS and SBITS[bt] == UBITS[ft]:
+            half = 1 << (SBITS[bt] - 1)
+            if entails(st.cons, le(v, half - 1)):
+                return [(v, st)]
+            if entails(st.cons, ge(v, half)):
+                return [(v - (1 << SBITS[bt]), st)]
+            a, b = st.copy(), st.copy()
+            a.assume(le(v, half - 1))
+            a.trail.append('%r < 2^%d' % (v, SBITS[bt] - 1))
+            b.assume(ge(v, half))
+            b.trail.append('%r >= 2^%d' % (v, SBITS[bt] - 1))
+            out = []
+            if a.ok():
+                out.append((v, a))
+            if b.ok():
+                out.append((v - (1 << SBITS[bt]), b))
+            return out
+        return [(self.convert(st, v, t), st)]
+
     def convert(self, st, v, t):
         """integral conversion of v to type t"""
         if not isinstance(v, Lin):
@@ -313,7 +354,10 @@ class Engine:
         if k == 'UnaryOperator' and n0.get('op') == '*':
             res = []
             for pv, s1 in self.ev(children(n0)[0], st, func):
-                res.append((('mem', pv if isinstance(pv, Ptr) else None), s1))
+                if isinstance(pv, Obj):
+                    res.append((('value', pv), s1))       # *this, *ptr_to_object
+                else:
+                    res.append((('mem', pv if isinstance(pv, Ptr) else None), s1))
             return res
         if k == 'UnaryOperator' and n0.get('op') in ('++', '--') and not n0.get('postfix'):
             res = []
@@ -330,7 +374,7 @@ class Engine:
             for _, s1 in self.ev(n0, st, func):
                 res.extend(self.lvalue(children(n0)[0], s1, func))
             return res
-        if k == 'CXXOperatorCallExpr' and n0.get('op') == '[]':
+        if k in CALL_KINDS:
             res = []
             for v, s1 in self.call(n0, st, func):
                 if isinstance(v, tuple) and v and v[0] == 'lvptr':
@@ -436,7 +480,9 @@ class Engine:
             res = []
             for v, s1 in self.ev(sub, st, func):
                 if ck in ('IntegralCast',):
-                    v = self.convert(s1, v, t)
+                    for v2, s2 in self.convert_split(s1, v, t, sub.get('t')):
+                        res.append((v2, s2))
+                    continue
                 elif ck == 'ArrayToPointerDecay':
                     if isinstance(v, Obj):
                         v = Ptr(v.name, 0)
@@ -677,6 +723,10 @@ class Engine:
             return [((op in ('!=', '>')), st)]
         if isinstance(y, Ptr) and isinstance(x, Lin) and x.is_const() and x.c == 0:
             return [((op in ('!=', '<')), st)]
+        if isinstance(x, Obj) and isinstance(y, Lin) and y.is_const() and y.c == 0:
+            return [((op in ('!=', '>')), st)]       # address of a modelled object is not null
+        if isinstance(y, Obj) and isinstance(x, Lin) and x.is_const() and x.c == 0:
+            return [((op in ('!=', '<')), st)]
         if not (isinstance(x, Lin) and isinstance(y, Lin)):
             a, b = st, st.copy()
             a.trail.append('cond@%s true' % node.get('l'))
@@ -752,6 +802,11 @@ class Engine:
         return None
 
     def find_model(self, callee):
+        base = re.sub(r'<[^<>]*>$', '', callee)
+        if base != callee:
+            m = self.find_model(base)
+            if m is not None:
+                return m
         for pat, fn in self.models.items():
             if pat.endswith('*'):
                 if callee.startswith(pat[:-1]):
@@ -773,6 +828,9 @@ class Engine:
         tgt = self.prog.by_key.get(n.get('ckey'))
         if tgt and tgt[0].body is not None and self.depth < self.cfg.get('inline_depth', 5) and \
                 not n.get('virtcall') and self.inlineable(tgt[0]):
+            if k in ('CXXConstructExpr', 'CXXTemporaryObjectExpr'):
+                name = 'tmp@%s#%d' % (n['id'], next(self.counter))
+                return [(Obj(name, btype(n.get('t'))), s1) for s1 in self.construct(n, tgt[0], st, func, name)]
             return self.inline(n, tgt[0], st, func)
         return self.opaque_call(n, st, func)
 
@@ -828,7 +886,10 @@ class Engine:
                 saved_vars = s.vars
                 callee_state = s.copy()
                 callee_state.vars = {}
+                target_obj = ov.name if (isinstance(ov, Obj) and f.cls and not f.d.get('static')) else None
                 for p, v in zip(f.params, av):
+                    if target_obj and target_obj != 'this':
+                        v = self.rename_value(v, 'this', target_obj)
                     callee_state.vars[p['name']] = v
                 # default arguments
                 for p in f.params[len(av):]:
@@ -840,23 +901,21 @@ class Engine:
                     this_obj = ov.name if isinstance(ov, Obj) else 'this'
                 remap = None
                 if this_obj is not None and this_obj != 'this':
-                    # calling a member on another object: swap field namespaces
+                    # calling a member on another object: exchange the roles of the two objects
                     remap = this_obj
-                    callee_state.fields = self.swap_obj(callee_state.fields, 'this', remap)
-                    callee_state.regions = self.swap_regions(callee_state.regions, 'this', remap)
-                    callee_state.nul = self.swap_regions(callee_state.nul, 'this', remap)
+                    pv = callee_state.vars
+                    callee_state.vars = {}
+                    self.swap_state(callee_state, 'this', remap)
+                    callee_state.vars = pv
                 for r in self.exec_body(f, callee_state):
+                    r.vars = {}
                     if remap is not None:
-                        r.fields = self.swap_obj(r.fields, 'this', remap)
-                        r.regions = self.swap_regions(r.regions, 'this', remap)
-                        r.nul = self.swap_regions(r.nul, 'this', remap)
+                        self.swap_state(r, 'this', remap)
                     rv = r.ret
                     r.ret = None
                     r.vars = dict(saved_vars)
                     if r.status == 'return':
                         r.status = 'normal'
-                    if isinstance(rv, Obj) and rv.name == 'this' and remap is not None:
-                        rv = Obj(remap, rv.kind)
                     out.append((rv if rv is not None else UNKNOWN, r))
         finally:
             self.depth -= 1
@@ -865,33 +924,103 @@ class Engine:
             self.notes.append('state explosion while inlining %s' % f.key)
         return out
 
+    @classmethod
+    def rename_value(cls, v, a, b):
+        """swap the object names a and b inside a value"""
+        if isinstance(v, Obj):
+            return Obj(cls.swap_name(v.name, a, b), v.kind)
+        if isinstance(v, Ptr):
+            return Ptr(cls.swap_name(v.region, a, b), v.off)
+        if isinstance(v, tuple) and v and v[0] == 'ref' and isinstance(v[1], tuple):
+            lv = v[1]
+            if lv[0] == 'field':
+                return ('ref', ('field', cls.swap_name(lv[1], a, b), lv[2]))
+            if lv[0] == 'mem' and isinstance(lv[1], Ptr):
+                return ('ref', ('mem', Ptr(cls.swap_name(lv[1].region, a, b), lv[1].off)))
+        return v
+
+    def swap_state(self, st, a, b):
+        """exchange the roles of the objects a and b in a state (fields, regions, values)"""
+        st.fields = {k: self.rename_value(v, a, b) for k, v in self.swap_obj(st.fields, a, b).items()}
+        st.regions = self.swap_regions(st.regions, a, b)
+        st.nul = self.swap_regions(st.nul, a, b)
+        st.ftypes = self.swap_obj(st.ftypes, a, b)
+        st.vars = {k: self.rename_value(v, a, b) for k, v in st.vars.items()}
+        if st.ret is not None:
+            st.ret = self.rename_value(st.ret, a, b)
+
+    def run_ctor(self, f, cs, vals):
+        """executes constructor f on the object currently called 'this' in state cs"""
+        cs.vars = {}
+        for p, v in zip(f.params, vals):
+            cs.vars[p['name']] = v
+        for p in f.params[len(vals):]:
+            if isinstance(p.get('default'), dict):
+                dv = self.ev(p['default'], cs, f)
+                cs.vars[p['name']] = dv[0][0]
+        cur = [cs]
+        for ini in f.inits:
+            init = ini.get('init')
+            if not isinstance(init, dict):
+                continue
+            nxt = []
+            if ini.get('kind') == 'member':
+                for c0 in cur:
+                    for v, c1 in self.ev(init, c0, f):
+                        if isinstance(v, Lin):
+                            ft = None
+                            for cn, cl in self.prog.classes.items():
+                                if cn == f.cls:
+                                    for fl in cl['fields']:
+                                        if fl['name'] == ini['name']:
+                                            ft = fl['t']
+                            if ft:
+                                v = self.convert(c1, v, ft)
+                                c1.ftypes[('this', ini['name'])] = ft
+                        c1.fields[('this', ini['name'])] = v
+                        nxt.append(c1)
+            elif ini.get('kind') == 'base' and init.get('k') == 'CXXConstructExpr':
+                bt = self.prog.by_key.get(init.get('ckey'))
+                if bt and self.inlineable(bt[0]):
+                    for c0 in cur:
+                        _, bargs = self.args_of(init)
+                        for bvals, c1 in _ev_all(self, bargs, c0, f):
+                            saved = c1.vars
+                            for r in self.run_ctor(bt[0], c1, bvals):
+                                r.vars = dict(saved)
+                                if r.status == 'return':
+                                    r.status = 'normal'
+                                nxt.append(r)
+                else:
+                    nxt = cur
+            else:
+                nxt = cur
+            cur = nxt
+        if isinstance(f.body, dict):
+            cur = self.stmt(f.body, cur, f)
+        return cur
+
     def construct(self, n, f, st, func, objname):
         """runs constructor f for a new object called objname; returns states"""
         _, args = self.args_of(n)
         outs = []
         for vals, s in _ev_all(self, [a for a in args], st, func):
+            if s.status != 'normal':
+                outs.append(s)
+                continue
             saved = s.vars
             cs = s.copy()
-            cs.vars = {}
-            for p, v in zip(f.params, vals):
-                cs.vars[p['name']] = v
-            cs.fields = self.swap_obj(cs.fields, 'this', objname)
+            self.swap_state(cs, 'this', objname)
+            vals = [self.rename_value(v, 'this', objname) for v in vals]
+            cs.fields[('this', '$new')] = lin(1)
             self.depth += 1
             try:
-                cur = [cs]
-                for ini in f.inits:
-                    if ini.get('kind') == 'member' and isinstance(ini.get('init'), dict):
-                        nxt = []
-                        for c0 in cur:
-                            for v, c1 in self.ev(ini['init'], c0, f):
-                                c1.fields[('this', ini['name'])] = v
-                                nxt.append(c1)
-                        cur = nxt
-                cur = self.stmt(f.body, cur, f) if isinstance(f.body, dict) else cur
+                cur = self.run_ctor(f, cs, vals)
             finally:
                 self.depth -= 1
             for r in cur:
-                r.fields = self.swap_obj(r.fields, 'this', objname)
+                r.vars = {}
+                self.swap_state(r, 'this', objname)
                 r.vars = dict(saved)
                 if r.status == 'return':
                     r.status = 'normal'
@@ -899,47 +1028,25 @@ class Engine:
                 outs.append(r)
         return outs
 
-    @staticmethod
-    def swap_obj(fields, a, b):
-        res = {}
-        for (o, f), v in fields.items():
-            if o == a:
-                res[(b + '$tmp', f)] = v
-            elif o == b:
-                res[(a, f)] = v
-            else:
-                res[(o, f)] = v
-        return {((a if o == a else b) if o.endswith('$tmp') else o, f): v for (o, f), v in
-                {((b if o == b + '$tmp' else o), f): v for (o, f), v in res.items()}.items()} \
-            if False else Engine._swap_finish(res, a, b)
+    @classmethod
+    def swap_name(cls, name, a, b):
+        """a <-> b for an object / region name, including dotted sub-objects (a.mData, a.mString)"""
+        if not isinstance(name, str):
+            return name
+        for src, dst in ((a, b), (b, a)):
+            if name == src:
+                return dst
+            if name.startswith(src + '.'):
+                return dst + name[len(src):]
+        return name
 
-    @staticmethod
-    def _swap_finish(res, a, b):
-        out = {}
-        for (o, f), v in res.items():
-            if o == b + '$tmp':
-                out[(b, f)] = v
-            else:
-                out[(o, f)] = v
-        return out
+    @classmethod
+    def swap_obj(cls, fields, a, b):
+        return {(cls.swap_name(o, a, b), f): v for (o, f), v in fields.items()}
 
-    @staticmethod
-    def swap_regions(regs, a, b):
-        out = {}
-        for name, v in regs.items():
-            if name.startswith(a + '.'):
-                out[b + '$tmp.' + name[len(a) + 1:]] = v
-            elif name.startswith(b + '.'):
-                out[a + '.' + name[len(b) + 1:]] = v
-            else:
-                out[name] = v
-        res = {}
-        for name, v in out.items():
-            if name.startswith(b + '$tmp.'):
-                res[b + '.' + name[len(b) + 5:]] = v
-            else:
-                res[name] = v
-        return res
+    @classmethod
+    def swap_regions(cls, regs, a, b):
+        return {cls.swap_name(name, a, b): v for name, v in regs.items()}
 
     def opaque_call(self, n, st, func):
         """unknown callee: evaluate arguments (for their obligations), havoc what it may modify"""
@@ -1193,6 +1300,17 @@ class Engine:
         out = []
         vars_, fields, havoc_this, incs, decs = self.modified_in([cond, inc, body], func)
         peel = self.cfg.get('peel_loops', False) or k == 'DoStmt'
+        if self.cfg.get('check_loop_bound_wrap'):
+            for s0 in cur:
+                if s0.status != 'normal':
+                    continue
+                for v in vars_:
+                    val = s0.vars.get(v)
+                    if isinstance(val, Lin):
+                        w = [str(x) for x in val.syms() if str(x).startswith('wrap<')]
+                        self.obligations.append(Obligation(
+                            self.root, 'wrap', 'start value of loop variable %s is not a wrapped unsigned expression' % v,
+                            not w, func.loc(n), '' if not w else '%s on the path [%s]' % (w[0], '; '.join(s0.trail[-6:]))))
 
         def one_iteration(start_states, assume_cond):
             """runs cond (if assume_cond) + body + inc from the given head states; returns
@@ -1287,14 +1405,35 @@ class Engine:
                 t = self.var_type(func, v, n)
                 if t and isinstance(head.vars.get(v), Lin):
                     self.type_range(head, head.vars[v], t)
-            if k == 'DoStmt':
-                starts = []
-                for truth, s1 in self.cond(cond, head.copy(), func):
-                    if truth:
-                        starts.append(s1)
-                after, exits = one_iteration(starts, False)
-            else:
-                after, exits = one_iteration([head], True)
+            # candidate bound for increasing unsigned counters: i <= 2^63 at the head; kept only if it is
+            # inductive (holds on entry and is re-established by one iteration), otherwise the iteration is
+            # analysed again without it
+            cand = []
+            for v, direction, old in mono:
+                t = btype(self.var_type(func, v, n))
+                if direction == 'inc' and t in ('unsigned long', 'unsigned long long') and \
+                        entails(s.cons, le(old, 1 << 63)):
+                    cand.append(v)
+            mark_obl, mark_out = len(self.obligations), len(out)
+            tentative = head.copy()
+            for v in cand:
+                tentative.assume(le(tentative.vars[v], 1 << 63))
+
+            def run(h):
+                if k == 'DoStmt':
+                    starts = []
+                    for truth, s1 in self.cond(cond, h.copy(), func):
+                        if truth:
+                            starts.append(s1)
+                    return one_iteration(starts, False)
+                return one_iteration([h], True)
+            after, exits = run(tentative if cand else head)
+            if cand and not all(entails(a.cons, le(a.vars[v], 1 << 63)) for a in after if a.status == 'normal'
+                                for v in cand if isinstance(a.vars.get(v), Lin)):
+                del self.obligations[mark_obl:]
+                del out[mark_out:]
+                after, exits = run(head)
+            if k != 'DoStmt':
                 out.extend(exits)
             for a in after:
                 if a.status == 'normal':
@@ -1646,8 +1785,12 @@ def m_vector_method(eng, n, st, func, want):
             key = (ov.name, 'size')
             size = s1.fields.get(key)
             if size is None:
-                size = eng.named('%s.size()' % ov.name, s1, 'unsigned long')
-                s1.assume(le(size, 1 << 62))
+                owner = ov.name.rsplit('.', 1)[0]
+                if (owner, '$new') in s1.fields:
+                    size = lin(0)            # member of an object under construction
+                else:
+                    size = eng.named('%s.size()' % ov.name, s1, 'unsigned long')
+                    s1.assume(le(size, 1 << 62))
                 s1.fields[key] = size
             if short == 'size':
                 out.append((size, s1))
